@@ -12,6 +12,7 @@ package main
 //        <i>f       RestoreChunk(i) with one byte of the file flipped (digest mismatch expected)
 //        <i>t       RestoreChunk(i) with the file truncated
 //        <i>s       RestoreChunk(i) with the bytes of chunk i+1 (well-formed, wrong digest for this index)
+//        <i>x       RestoreChunk(i) with the real bytes under an already cancelled context (must stay restorable)
 //        A          abort and restart the whole restore (AbortRestore + AbortMultipartInsert)
 //   restorec BACKEND N SEED         N goroutines restore all chunks concurrently, each in its own order
 //   raceabort I J                   RestoreChunk(I) is in flight while RestoreChunk(J) (bad proof) aborts the restore
@@ -19,6 +20,7 @@ package main
 //                                   (right digest, wrong proof): must fail verification, import nothing
 
 import (
+	"context"
 	"bytes"
 	"errors"
 	"fmt"
@@ -625,7 +627,7 @@ func (c *c12Runner) runRestore(backend string, steps []string) {
 			continue
 		}
 		kind := byte(0)
-		if strings.HasSuffix(st, "f") || strings.HasSuffix(st, "t") || strings.HasSuffix(st, "s") {
+		if strings.HasSuffix(st, "f") || strings.HasSuffix(st, "t") || strings.HasSuffix(st, "s") || strings.HasSuffix(st, "x") {
 			kind = st[len(st)-1]
 			st = st[:len(st)-1]
 		}
@@ -652,6 +654,26 @@ func (c *c12Runner) runRestore(backend string, steps []string) {
 			// a completed restore accepts nothing more
 			if _, err := rs.RestoreChunk(ctx, uint64(i), bytes.NewReader(raw)); err == nil {
 				c.fail("spec", "spec-restore-after-done", "RestoreChunk succeeded after the restore had completed")
+			}
+			continue
+		}
+		if kind == 'x' {
+			// the genuine chunk, but the caller's context is already cancelled (a transient failure of
+			// the import that is not the chunk's fault): either the import does not notice and the chunk
+			// counts as restored, or it fails and the chunk stays pending — a later attempt must import it
+			if restored[i] {
+				continue
+			}
+			cctx, cancel := context.WithCancel(ctx)
+			cancel()
+			fin, err := rs.RestoreChunk(cctx, uint64(i), bytes.NewReader(raw))
+			c.res.Count("restore:cancelled-context")
+			if err == nil {
+				restored[i] = true
+				order = append(order, fmt.Sprint(i))
+				done = fin
+			} else {
+				c.res.Count("restore:cancelled-context:failed")
 			}
 			continue
 		}
@@ -997,6 +1019,8 @@ func genCaseC12(r *hlib.Rng, res *hlib.Result, i int, big int) []string {
 					steps = append(steps, fmt.Sprintf("%dt", x))
 				case y == 3:
 					steps = append(steps, fmt.Sprintf("%ds", x))
+				case y == 4:
+					steps = append(steps, fmt.Sprintf("%dx", x))
 				default:
 					steps = append(steps, fmt.Sprint(x))
 				}
